@@ -267,6 +267,14 @@ func typeclassTuple(dir string, n int) string {
 		return vars("a") + vars("b") + fmt.Sprintf("\to := ord.Tuple%d(%s)\n", n, seqN(n, func(int) string { return "ord.Given[int]()" }, ", ")) +
 			fmt.Sprintf("\tzz.Assert(o.Less(%s, %s) == (%s), %q)\n", lit("a"), lit("b"), lex, fmt.Sprintf("ord.Tuple%d: lexicographic in position order", n)) +
 			fmt.Sprintf("\tzz.Assert(o.Eqv(%s, %s) == (%s), %q)\n", lit("a"), lit("b"), seqN(n, func(i int) string { return fmt.Sprintf("a%d == b%d", i, i) }, " && "), fmt.Sprintf("ord.Tuple%d.Eqv component-wise", n))
+	case "ordwide":
+		// component instances whose Compare is lawful but not normalised to -1/0/+1
+		lex := "false"
+		for i := n; i >= 1; i-- {
+			lex = fmt.Sprintf("a%d < b%d || (a%d == b%d && (%s))", i, i, i, i, lex)
+		}
+		return vars("a") + vars("b") + fmt.Sprintf("\to := ord.Tuple%d(%s)\n", n, seqN(n, func(int) string { return "wideOrd" }, ", ")) +
+			fmt.Sprintf("\tzz.Assert(o.Less(%s, %s) == (%s), %q)\n", lit("a"), lit("b"), lex, fmt.Sprintf("ord.Tuple%d over components with a non-normalised Compare: still lexicographic", n))
 	case "monoid":
 		return vars("a") + vars("b") + fmt.Sprintf("\tm := monoid.Tuple%d(%s)\n", n, seqN(n, func(int) string { return "monoid.Sum[int]()" }, ", ")) +
 			fmt.Sprintf("\tc := m.Combine(%s, %s)\n\tz := m.Empty()\n", lit("a"), lit("b")) +
@@ -288,6 +296,17 @@ func (cheap) Eqv(a, b int) bool { return a == b }
 func (cheap) Hash(a int) uint32 { return uint32(a) }
 
 var cheapH fp.Hashable[int] = cheap{}
+
+// a lawful Ord whose Compare returns other magnitudes than 1
+var wideOrd = ord.FromCompare(func(a, b int) int {
+	if a < b {
+		return -5
+	}
+	if a > b {
+		return 7
+	}
+	return 0
+})
 
 // a Clone instance that is distinguishable per position
 func tagClone(i int) fp.Clone[int] {
@@ -371,6 +390,9 @@ func genArity(tier, repo string) ([]File, error) {
 			}
 			if b := typeclassTuple(dir, k); b != "" {
 				hs = append(hs, entry{dir + "_" + n, b})
+			}
+			if dir == "ord" && k <= 8 {
+				hs = append(hs, entry{"ordwide_" + n, typeclassTuple("ordwide", k)})
 			}
 		}
 	}
